@@ -45,7 +45,8 @@ import textwrap
 import time
 import traceback
 
-from runtime.common import result
+sys.dont_write_bytecode = True      # nothing may be written under /verif
+from runtime.common import result  # noqa: E402
 
 CHECK_EXC = "C16.abort.leaves_run_plan_as_ConductorAbort"
 CHECK_TERM = "C16.abort.every_live_child_group_gets_SIGTERM"
@@ -156,10 +157,12 @@ def kill_and_reap_children():
 
 
 # --------------------------------------------------------------------------- supervised fork
-def supervised_fork(fn, timeout):
+def supervised_fork(fn, timeout, hang_info=None):
     """Runs fn(write_line) in a forked process; fn reports JSON-able objects with
     write_line(obj).  Returns (lines, hung, exit_status).  The forked process and
-    everything below it is killed when it does not finish in `timeout` seconds."""
+    everything below it is killed when it does not finish in `timeout` seconds; if a
+    dict `hang_info` is given it then receives the processes found below it
+    ({"descendants": [(pid, state), ...]}) as seen just before the kill."""
     rfd, wfd = os.pipe()
     sys.stdout.flush()
     sys.stderr.flush()
@@ -168,6 +171,10 @@ def supervised_fork(fn, timeout):
         code = 0
         try:
             os.close(rfd)
+            try:
+                os.setpgid(0, 0)    # own group: helpers it leaves behind (tar, ...) can be found
+            except OSError:
+                pass
             signal.signal(signal.SIGCHLD, signal.SIG_DFL)
             signal.signal(signal.SIGTERM, signal.SIG_DFL)
             signal.signal(signal.SIGINT, signal.SIG_DFL)
@@ -183,6 +190,10 @@ def supervised_fork(fn, timeout):
         finally:
             os._exit(code)  # pylint: disable=protected-access
     os.close(wfd)
+    try:
+        os.setpgid(pid, pid)
+    except OSError:
+        pass
     buf = b""
     hung = False
     deadline = time.time() + timeout
@@ -205,12 +216,25 @@ def supervised_fork(fn, timeout):
         status = None
         if hung:
             below = descendants_of(pid)
+            if hang_info is not None:
+                hang_info["descendants"] = [(p, pid_state(p)) for p in below]
+                hang_info["state"] = pid_state(pid)
             kill_hard([pid])
             kill_hard(below)
         try:
             _, status = os.waitpid(pid, 0)
         except OSError:
             pass
+        # processes the scenario left behind in its own group (e.g. a `tar` whose parent
+        # was killed): kill them and wait until the group is empty, so that the caller's
+        # removal of the scratch directory is final
+        end = time.time() + 3.0
+        while time.time() < end:
+            try:
+                os.killpg(pid, signal.SIGKILL)
+            except OSError:
+                break
+            time.sleep(0.005)
     lines = []
     for raw in buf.decode("utf-8", "replace").splitlines():
         try:
@@ -495,6 +519,9 @@ def run(tier, seed):  # pylint: disable=unused-argument
     t0 = time.time()
     kmax = OCCURRENCES.get(tier, OCCURRENCES["quick"])
     targets = target_functions()
+    import conductor.execution.planning.planner  # noqa: F401  pylint: disable=unused-import
+    from conductor.envs.manager import EnvManager
+    EnvManager.create()     # warms the (optional, slow) imports Context.__init__ triggers
     anchors = Anchors()
     ctx = multiprocessing.get_context("fork")
 
